@@ -176,6 +176,9 @@ func (h *hist) aput(g, n int, im, inm string, rc rec) int {
 	rc.name, rc.group = n, g
 	h.t.Op(fmt.Sprint(status), "aput", g, n, h.hvalArg(im), h.hvalArg(inm), rc.String(), st)
 	h.apiWriteCheck("PUT", n, im, inm, status, existed, verBefore, rawBefore, existedFile)
+	if !is2xx(status) && h.r.Chance(1, 2) {
+		h.afterRefused("PUT", rawBefore, existedFile)
+	}
 	if is2xx(status) {
 		h.writes++
 		if im == "" {
@@ -197,6 +200,9 @@ func (h *hist) adel(g, n int, im, inm string) int {
 	st := h.stamp()
 	h.t.Op(fmt.Sprint(status), "adel", g, n, h.hvalArg(im), h.hvalArg(inm), st)
 	h.apiWriteCheck("DELETE", n, im, inm, status, existed, verBefore, rawBefore, existedFile)
+	if !is2xx(status) && h.r.Chance(1, 2) {
+		h.afterRefused("DELETE", rawBefore, existedFile)
+	}
 	if is2xx(status) {
 		h.writes++
 		h.revoked[n] = true
